@@ -589,7 +589,7 @@ class Client:
 
                 # Check if we've reached the end already
                 if end_group_handle == 0xFFFF:
-                    break
+                    return services
 
             # Stop if for some reason the list was empty
             if not response.handles_information:
